@@ -20,19 +20,19 @@ checks = {
          "all depth-1 programs in 6 layout styles and all context chains of length 2 (thorough: 3, plus full depth-2 trees) over 59 contexts and 10 leaves are run on a fresh real interpreter and on the reference evaluator R1; value, error and the order of traced host calls must agree",
          "trusts R1 as the specification of the core language; programs R1 declines are skipped and counted; bounded size", "§3 C02"),
  "C09": ("exploration", "small-scope exhaustive enumeration of tail-recursive function shapes: differential against a reference evaluator without tail calls + stack high-water marks over growing depths",
-         "every composition of 9 tail contexts to nesting depth 2 (thorough 3; scope-opening contexts to 4/5), the recursive call also in 9 non-tail positions, x 15 body kinds; value/effects/closure observations equal the reference evaluator for depths 0..10, and the VM stack high-water marks are identical for depths 10/60/300 (thorough 10/100/1000/100000)",
+         "every composition of 9 tail contexts to nesting depth 2 (thorough 3; scope-opening contexts to 4/5), the recursive call also in 9 non-tail positions, x 17 body kinds; value/effects/closure observations equal the reference evaluator for depths 0..10, and the VM stack high-water marks are identical for depths 10/60/300 (thorough 10/100/1000/100000)",
          "trusts R1 as the un-optimised semantics; high-water marks sampled in a pre-call hook via the verif accessor", "§3 C09"),
  "C03": ("exploration", "small-scope exhaustive enumeration of scope skeletons over a two-name pool, differential against a reference evaluator with textbook lexical scopes",
-         "all chains of 33 scope contexts to length 3 (thorough 4) over 6 leaves reading/writing x and y, every binding a distinct integer, evaluated on a fresh real interpreter and on R1; the returned integers identify the binding seen",
+         "all chains of 38 scope contexts to length 3 (thorough 4) over 6 leaves reading/writing x and y, every binding a distinct integer, evaluated on a fresh real interpreter and on R1; the returned integers identify the binding seen",
          "trusts R1's environment model as the definition of lexical scoping; integer bindings only; bounded nesting", "§3 C03"),
  "C16": ("exploration", "small-scope exhaustive enumeration of lazy/strict signatures x usages x call routes, differential against a reference evaluator (memoised thunks over the caller's scope)",
-         "all 28 signatures of 1..3 strict/lazy parameters (with/without variadic tail) x all assignments of 7 usages to the lazy ones x 9 call routes x failing/zero/normal argument choices x 0..2 variadic extras; count and order of argument evaluations (host-call trace), values and errors must equal R1's",
+         "all 28 signatures of 1..3 strict/lazy parameters (with/without variadic tail) x all assignments of 9 usages to the lazy ones x 11 call routes x {integer, list/symbol/array-valued arguments}, plus 4 multi-evaluation scenarios (a failed force is not remembered, substitute after force) x failing/zero/normal argument choices x 0..2 variadic extras; count and order of argument evaluations (host-call trace), values and errors must equal R1's",
          "trusts R1's thunk model; typed func declarations are not generated; bounded to 3 parameters", "§3 C16"),
  "C13": ("fault_enumeration", "exhaustive enumeration of cut points (where the input stream ends and the parser has to pause) over corpus + generated texts, plus explicit-state BFS over parse histories keyed by the lexer residue",
          "for the 110 corpus scripts, a hand list and every string of <=3 (thorough 4) tokens over a 40-token alphabet: whole parse vs parse with trailing newline, pause-iff-unfinished against an independent prefix scanner, every 1-cut and (short texts) every 2-cut delivered with the REPL pause protocol; 13 multi-line forms with 0-2 empty lines at every line break typed into the real REPL of cmd/zygo; BFS over histories of 18 residue-leaving inputs (depth 3/4) with 10 probe texts compared with a fresh interpreter",
          "trusts the prefix scanner R8 and the whole-text parse as reference; cuts are rune-aligned; more than two cuts are not explored", "§3 C13"),
  "C05": ("fault_enumeration", "deviation-bounded exploration of fault points (k-th host call fails, by error or by panic) over enumerated programs, oracle = reference evaluator run with the same fault",
-         "every program of the C02 grammar (depth-1 full, chains of length 2) plus lazy/deep/tail/loop contexts: default run counts the host calls N, then each k<=N x {error, panic} re-runs on a fresh interpreter; result, trace, stacks at rest and a 17-item follow-up battery must equal the reference evaluator's after the same fault (thorough: + a second fault during the follow-ups); 14 malformed forms in every hole of every context and 8 unparsable texts must yield errors and leave the interpreter usable",
+         "every program of the C02 grammar (depth-1 full, chains of length 2) plus lazy/deep/tail/loop contexts: default run counts the host calls N, then each k<=N x {error, panic} re-runs on a fresh interpreter; result, trace, stacks at rest and a 19-item follow-up battery must equal the reference evaluator's after the same fault (thorough: + a second fault during the follow-ups); 14 malformed forms in every hole of every context and 8 unparsable texts must yield errors and leave the interpreter usable",
          "trusts R1's treatment of a fault (global effects before the fault persist); single fault per program run (thorough: two)", "§3 C05"),
  "C04": ("model_checking", "explicit-state BFS over evaluation histories on one long-lived real interpreter (state = VM stack depths + user globals + macros), plus batch evaluation of the program grammars",
          "all histories of depth 3 (thorough 4) over a 43-form alphabet covering every form family of the surface language incl. declarations, macros, packages, infix, failing forms and empty input; in every state the four VM stacks are at rest after a success, empty input evaluates to nil, and evaluating the forms in one call equals one at a time; additionally ~42k generated programs run in batches of 40 on one interpreter with stacks checked after every success",
@@ -44,7 +44,7 @@ checks = {
          "all histories of depth 5 (thorough 7) over 24 operations (MakeSymbol of fixed and would-be-generated names, GenSymbol, Duplicate, Clone on members 0..2); in every state: equal names <=> equal numbers over all symbols returned, generated symbols fresh and pairwise distinct, table a bijection; plus 8 script-level programs",
          "state key = user table entries + per-member counters + generated names, read through verif accessors; family of at most 3", "§3 C19"),
  "C15": ("exploration", "small-scope exhaustive enumeration of templates and macro call sites; value compared with an exact-substitution function, macro calls compared with hand-written expansions",
-         "every list/array template of width 1..3 over 20 leaves (literals, unquotes of 6 bindings, splices of 4 lists incl. empty and nested, compound and traced unquotes) and with width-1..2 nested containers, written with the reader sugar; 15 macros x all argument tuples over 6 forms x 10 call sites x {direct, inside another macro's expansion}: value, effects and stacks vs the hand expansion; macexpand prints the exact substitution and leaves the caller's depths and globals unchanged",
+         "every list/array template of width 1..3 over 20 leaves (literals, unquotes of 6 bindings, splices of 4 lists incl. empty and nested, compound and traced unquotes) and with width-1..2 nested containers, written with the reader sugar; 18 macros x all argument tuples over 6 forms x 10 call sites x {direct, inside another macro's expansion}: value, effects and stacks vs the hand expansion; macexpand prints the exact substitution and leaves the caller's depths and globals unchanged",
          "trusts R4 (substitution inside the reference evaluator); splicing a non-list and nested syntax-quotes are skipped", "§3 C15"),
  "C12": ("exploration", "exhaustive enumeration of a structured value space (boundary numbers, the whole Unicode range in thorough, adversarial strings) through print -> read/eval, and of literal spellings against strconv/math/big",
          "ints, ~1300 floats (every 7th power of two and neighbours; thorough: every power of two and neighbours over the full exponent range), floats computed by the interpreter, bools, nil, every rune of U+0000..U+20FF + every 257th scalar above + representatives (thorough: all 1,112,064 scalars) as char and 1-char string, 2-char (3-char) adversarial strings, strings computed by concat from raw and quoted literals, one object shared twice inside a value, symbols, JSON-like hashes, each bare / in list / in array / nested: (read (str v)) and, for JSON-like values, (eval (read (str v))) equal v structurally; ~700 numeric literal spellings and all char/string literals and escapes denote their exact value",
@@ -62,7 +62,7 @@ checks = {
          "Go value fixed first, record text derived from it: 48 single-field cases over 22 field kinds (incl. slices of struct values and pointers, map of interfaces, three levels of embedding), every subset of the embedded fields, 5 change-then-convert-again sequences, all (quick: a third of the) ordered pairs of fields, all triples of fields (thorough), 6 sharing patterns; SexpToGoStructs and (togo r) give DeepEqual values with one object per shared record; (_method a EchoSelf:) returns an equivalent record; 11 records with undeclared fields or wrong-kind values are reported as errors",
          "types registered by the harness through the public registry; unset fields may come back as zero values; the time.Time loss on the way back is a recorded finding pinned by the repository's own tests", "§3 C10"),
  "C20": ("model_checking", "deviation-bounded exploration of map-iteration choice points on a rebuilt package (AST rewrite through go build -overlay routes every range over a map through a chooser), plus re-runs in the same and in a fresh process",
-         "for each of 100 corpus programs the default run (all maps iterated in sorted order, interpreter construction included) records the choice points (30 rewritten range sites); every single deviation (reverse, rotate, swap; all permutations for <=3 keys; thorough: + pairs of reversals) is executed and value, captured stdout and error text must equal the default run's; each program is re-run in the same process and in a fresh process",
+         "for each of 102 corpus programs the default run (all maps iterated in sorted order, interpreter construction included) records the choice points (30 rewritten range sites); every single deviation (reverse, rotate, swap; all permutations for <=3 keys; thorough: + pairs of reversals) is executed and value, captured stdout and error text must equal the default run's; each program is re-run in the same process and in a fresh process",
          "1 range site keyed by interface{} (a debug dump) and maps inside third-party modules are not controlled; pointer values and clock readings are scrubbed; single (thorough: double) deviations", "§3 C20"),
 }
 all_ids = ["C%02d" % i for i in range(1, 21)]
